@@ -554,6 +554,18 @@ class Interp:
             self.track_world(val)
         return cache[key]
 
+    def dict_key(self, k):
+        """A key of a Python dict / set as Python hashes it: an abstract number (or a tuple holding one) is replaced by its
+        stand-in (equal symbolic values are one key), everything else is itself."""
+        def has_abstract(x):
+            return isinstance(x, SVar) or (isinstance(x, tuple) and any(has_abstract(y) for y in x))
+        if not has_abstract(k):
+            return k
+        try:
+            return self.memo_key(k)
+        except _NoKey:
+            return k
+
     def memo_key(self, v):
         """A Python-hashable stand-in for an argument of a memoised function: equal stand-ins iff Python would find the arguments
         equal (strings, numbers, tuples, units, enum members; objects by their __eq__ / __hash__ or by identity)."""
@@ -846,6 +858,8 @@ class Interp:
         elif isinstance(t, ast.Subscript):
             obj = self.eval(t.value, env, mi)
             key = self.eval(t.slice, env, mi)
+            if isinstance(obj, dict) and not isinstance(key, Opaque):
+                key = self.dict_key(key)
             if isinstance(obj, dict | list) and not isinstance(key, Opaque | SVar):
                 try:
                     obj[key] = val
@@ -1645,6 +1659,10 @@ class Interp:
                 return Opaque(f'{fn.name}(⊤)')
             if isinstance(fn.obj, str | bytes) and any(isinstance(a, list | tuple) and any(isinstance(x, Opaque | SVar | SObj) for x in a) for a in args):
                 return Opaque(f'{fn.name}(sequence with ⊤)')  # e.g. ', '.join of formatted abstract values
+            if isinstance(fn.obj, dict) and fn.name in ('get', 'pop', 'setdefault', '__getitem__', '__contains__', '__setitem__') and args:
+                args = [self.dict_key(args[0]), *args[1:]]
+            elif isinstance(fn.obj, set) and fn.name in ('add', 'discard', 'remove', '__contains__') and args:
+                args = [self.dict_key(args[0]), *args[1:]]
             if isinstance(fn.obj, list | dict | set) and fn.name in _MUTATING_METHODS:
                 self.note_store(fn.obj, *args, *kwargs.values())
             try:
@@ -1829,6 +1847,8 @@ class Interp:
         if isinstance(op, ast.In | ast.NotIn):
             if isinstance(b, Opaque) or isinstance(a, Opaque):
                 return Opaque('in on ⊤')
+            if isinstance(b, dict | set | frozenset) and not isinstance(a, Opaque):
+                a = self.dict_key(a)
             if isinstance(b, SVar | SObj) or isinstance(a, SVar):
                 return Opaque('in on abstract value')
             try:
@@ -1936,6 +1956,8 @@ class Interp:
                     raise RaiseSignal('IndexError', node, self.where(node), ('tuple index out of range',)) from None
         if hasattr(obj, 'vp_index'):
             return obj.vp_index(key)  # an object provided by a model: it knows how to be indexed by abstract keys
+        if isinstance(obj, dict) and not isinstance(key, Opaque):
+            key = self.dict_key(key)
         if isinstance(key, Opaque | SVar):
             return Opaque('⊤ index')
         if obj is None:
